@@ -130,6 +130,23 @@ def check_task(bag, rng, spec_vars, n_pos):
                         break
     except Exception as e:
         bad("bounds", f"get_bounds() raised {type(e).__name__}: {e}")
+    # ---- consequences of a consistent description: derived helpers agree with the dimension and the bounds
+    if not is_perm_only:
+        bag["n"] += 1
+        try:
+            np.random.seed(rng.randrange(2 ** 32))
+            rs = task.random_solution()
+            if len(rs) != dim:
+                bad("random-solution", f"random_solution() has {len(rs)} coordinates, dimension {dim}")
+            e = task.empty_solution()
+            if not task.is_valid_solution(e):
+                bad("random-solution-inside-bounds", f"empty_solution() = {e!r} is outside get_bounds() = {task.get_bounds()!r}")
+            bw = task.bandwidth()
+            lb2, ub2 = task.get_bounds()
+            if len(bw) != dim or any(float(w) < 0 for w in bw) or any(float(w) != float(b) - float(a) for w, a, b in zip(bw, lb2, ub2)):
+                bad("bandwidth", f"bandwidth() = {bw!r} for bounds {lb2!r}, {ub2!r}")
+        except Exception as ex:
+            bad("random-solution", f"random_solution / is_valid_solution / bandwidth raised {type(ex).__name__}: {ex}")
     # ---- random / corrected solutions
     fresh = fresh_flat(spec_vars)
     np.random.seed(rng.randrange(2 ** 32))
@@ -243,7 +260,7 @@ def check(prop, tier, seed):
     rng = random.Random(f"c14/{seed}")
     chunks = 32
     items = [{"seed": f"{seed}/{k}", "lists": lists[k::chunks], "n_pos": 2 if tier == "quick" else 6,
-              "n_rand": 20 if tier == "quick" else 600, "perms": PERMS if k == 0 else []} for k in range(chunks)]
+              "n_rand": 20 if tier == "quick" else 3000, "perms": PERMS if k == 0 else []} for k in range(chunks)]
     res = runner.run_parallel("pvmon.props.c14", "work", items, {}, batch=1)
     n_tasks = 0
     for it, r in zip(items, res):
